@@ -6,6 +6,7 @@ from ..ref import secp, ecdsa as recdsa, der as rder
 from .common import RngShim, retarget_field, keys_boundary, k32, rand_bytes
 
 PROP = "C01"
+REPEAT_SAMPLE = {"quick": 15, "thorough": 60}   # expensive cases: small repeat pass
 LEVEL = "exploration"
 RULE = ("Cases: (a) bits.sig on generated (key, message, flag, preimage-mode) with a recording pass-through RNG; "
         "(b) bits.ecmath.sign with SCRIPTED nonce draws where the private key is solved so that s hits a chosen "
@@ -56,6 +57,10 @@ def gen_cases(tier, seed):
     for z in DIGESTS:
         for key in keys[:6] + [rng.randrange(1, N)]:
             yield "scripted_key", {"k": hex(rng.randrange(1, N)), "z": hex(z), "key": hex(key), "pre0": False}
+    # r boundary classes: top byte exactly 00 (short r), 7f, 80, 81, ff -- ground with the reference EC
+    for top in (0x00, 0x7F, 0x80, 0x81, 0xFF):
+        for rep in range(3 if tier == "quick" else 12):
+            yield "scripted_rtop", {"top": top, "start": hex(rng.randrange(1, N)), "z": hex(rng.getrandbits(256)), "key": hex(rng.randrange(1, N))}
     for kdraw in (1, 2, N - 1, N - 2):
         yield "scripted_key", {"k": hex(kdraw), "z": hex(rng.getrandbits(256)), "key": hex(rng.randrange(1, N)), "pre0": True}
     for _ in range(n_scr_rand):
@@ -85,7 +90,7 @@ def gen_cases(tier, seed):
 
 def required(tier):
     return {"api.signed": 300, "scripted.signed": 300, "class.s_short_topbit": 20, "class.digest_ge_n": 10,
-            "class.retry_s0": 1, "class.inner_retry_draw0": 5, "reuse.pairs_checked": 100,
+            "class.retry_s0": 1, "class.r_top_80": 3, "class.r_top_00": 3, "class.r_top_7f": 3, "class.inner_retry_draw0": 5, "reuse.pairs_checked": 100,
             "small.signed": 10000, "small.retry_branch": 10,
             "contract:sign.range_low_s": 1000, "contract:der_encode_sig.strict_roundtrip": 300,
             "contract:sig.flag_suffix": 300}
@@ -168,6 +173,18 @@ def run_case(kind, params, ctx):
     import bits
     import bits.ecmath as em
     import bits.utils as bu
+    if kind == "scripted_rtop":
+        k = int(params["start"], 16)
+        for _ in range(6000):
+            if secp.SECP.mul(k, secp.G)[0] >> 248 == params["top"]:
+                break
+            k = k % (N - 1) + 1
+        else:
+            ctx.oracle_error("could not grind a nonce for the requested r class")
+            return
+        ctx.count(f"class.r_top_{params['top']:02x}")
+        params = {"k": hex(k), "z": params["z"], "key": params["key"], "pre0": False}
+        kind = "scripted_key"
     if kind in ("scripted", "scripted_key"):
         k = int(params["k"], 16)
         z = int(params["z"], 16)
